@@ -86,7 +86,7 @@ FIRING = [
          edits=[(DT + "synced_dict.py", """        if self._root is None:
             # Clearing the root is destructive, so no load is required, but the
             # change and the save must not be interleaved with other writers.
-            with self._thread_lock:""", """        if True:
+            with self._save_only:""", """        if True:
             # Clearing the root is destructive, so no load is required, but the
             # change and the save must not be interleaved with other writers.
             with self._thread_lock:""")]),
@@ -105,17 +105,25 @@ FIRING = [
             self._func()
         super().__exit__(exc_type, exc_val, exc_tb)""")]),
     dict(id="c05-clear-rebinds", fires={"C05": "C05.d"},
-         edits=[(DT + "synced_dict.py", """            with self._thread_lock:
-                self._data.clear()
-                self._save()""", """            with self._thread_lock:
-                self._data = {}
-                self._save()""")]),
+         edits=[(DT + "synced_dict.py", """            with self._save_only:
+                self._data.clear()""", """            with self._save_only:
+                self._data = {}""")]),
     dict(id="c05-flush-dict-only", fires={"C05": "C05.e"},
          edits=[(BUF + "memory_buffered_collection.py", """            data = self._to_base()
             self._data = type(self._data)()
             self._update(data, _validate=True)""", """            data = self._to_base()
             self._data = type(self._data)()
             self._update(dict(data.items()), _validate=True)""")]),
+    dict(id="c05-second-object-save-not-stored", fires={"C05": "C05.f"},
+         edits=[(BUF + "memory_buffered_collection.py", """                type(self)._buffer[self._filename]["contents"] = self._data
+""", "")]),
+    dict(id="c10-root-clear-col-then-buf", fires={"C10": "C10.c"},
+         edits=[(DT + "synced_list.py", """            with self._save_only:
+                self._data.clear()""", """            with self._thread_lock:
+                self._data.clear()
+                self._save()""")]),
+    dict(id="c12-untyped-equality-shortcut", fires={"C12": "C12.d"},
+         edits=[(DT + "synced_list.py", "if data[i] == self._data[i] and type(data[i]) is type(self._data[i]):", "if data[i] == self._data[i]:")]),
     # ------------------------------------------------------------------ C06
     dict(id="c06-flush-decides-on-own-data", fires={"C06": "C06.a"},
          edits=[(BUF + "memory_buffered_collection.py", """                    if cached_data["modified"]:
@@ -192,9 +200,11 @@ FIRING = [
     # ------------------------------------------------------------- C09 / C10
     dict(id="c09-release-between-load-and-save", fires={"C09": "C09.a"},
          edits=[(DT + "synced_collection.py", """        try:
-            self._collection._load()
+            if self._load:
+                self._collection._load()
         except BaseException as error:""", """        try:
-            self._collection._load()
+            if self._load:
+                self._collection._load()
             self._collection._thread_lock.__exit__(None, None, None)
             self._collection._thread_lock.__enter__()
         except BaseException as error:""")]),
@@ -206,14 +216,16 @@ FIRING = [
         self._collection._thread_lock.__exit__(exc_type, exc_val, exc_tb)""")]),
     dict(id="c10-enter-leaks-again", fires={"C10": "C10.a"},
          edits=[(DT + "synced_collection.py", """        try:
-            self._collection._load()
+            if self._load:
+                self._collection._load()
         except BaseException as error:
             # __exit__ is not called when __enter__ raises, so the lock must be
             # released here or it would stay held forever.
             self._collection._thread_lock.__exit__(
                 type(error), error, error.__traceback__
             )
-            raise""", """        self._collection._load()""")]),
+            raise""", """        if self._load:
+            self._collection._load()""")]),
     dict(id="c10-new-lock-order-edge", fires={"C10": "C10.c"},
          edits=[(DT + "synced_dict.py", """    def popitem(self):  # noqa: D102
         with self._load_and_save:""", """    def popitem(self):  # noqa: D102
